@@ -20,9 +20,13 @@ of tasks used by asyncio.wait and by the library is replayable.
 import asyncio
 import contextlib
 import heapq
+import os
 import random
+import sys
 import time as _time
 from asyncio import events
+
+_OWN_TIMEOUT = os.path.join('asyncio', 'timeouts.py')
 
 
 class Wedged(Exception):
@@ -94,6 +98,11 @@ class VTask(asyncio.Task):
 
     def cancel(self, msg=None):
         ret = super().cancel(msg)
+        if sys._getframe(1).f_code.co_filename.endswith(_OWN_TIMEOUT):
+            # asyncio.timeout() used by the job itself, cancelling its own
+            # task from inside: not a request made by anybody else
+            return ret
+        self._vext = getattr(self, '_vext', 0) + 1
         loop = self.get_loop()
         hook = getattr(loop, 'on_task_cancel', None)
         if hook is not None:
